@@ -514,3 +514,429 @@ func oneRun(out string, c runCfg, deadline time.Duration) runRec {
 	ep.mu.Unlock()
 	return rec
 }
+
+// ------------------------------------------------------------------ Regen
+//
+// TestC05Regen: two connection generations of one destination without spool
+// (spec/ConnStreamGen.tla).  The verification hooks of package destination are
+// used as scheduler gates only: the first connection's writer goroutine is held
+// after it has taken a line from its queue and before it writes it; the endpoint
+// closes that connection; the relay notices and reconnects; lines are handed to
+// the new, healthy connection; the old writer is released (it performs its late
+// write and exits); the destination is flushed and shut down.  Recorded: the
+// lines handed while the second connection was the relay's connection and the
+// bytes the endpoint received over the second connection.  A gate that is not
+// reached within the deadline is reported as ev="machinery" (never a verdict).
+
+type regenCfg struct {
+	R       int    `json:"r"`
+	IOBuf   int    `json:"iobuf"`
+	ConnBuf int    `json:"connbuf"`
+	FlushMs int    `json:"flushms"` // flush period (large: only explicit flushes)
+	Pickle  bool   `json:"pickle"`
+	OldPre  int    `json:"oldpre"`   // lines the old writer has written (buffered) before the held one
+	OldLen  int    `json:"oldlen"`   // length of the old lines
+	OldQ    int    `json:"oldq"`     // lines still queued in the old connection's In behind the held one
+	Hold    string `json:"hold"`     // hook point at which the old writer is held: "hd.added" | "hd.recv"
+	NewLens []int  `json:"newlens"`  // lengths of the lines handed to the new connection
+	RelAt   int    `json:"relat"`    // the old writer is released after that many new lines were written
+	MidFl   int    `json:"midflush"` // explicit flush after that many new lines (0 = none)
+}
+
+type regenRec struct {
+	Ev        string   `json:"ev"`
+	Why       string   `json:"why"`
+	Cfg       regenCfg `json:"cfg"`
+	Key       string   `json:"key"`
+	Online    bool     `json:"online"`
+	Gens      int      `json:"gens"`
+	Handed    int      `json:"handed"`
+	Slow      int64    `json:"slow"`
+	Out       int64    `json:"out"`
+	Conns     int      `json:"conns"`
+	ConnUpd   int      `json:"connupdates"`
+	Stalled   bool     `json:"stalled"`
+	Units     int64    `json:"units"`
+	FlushErr  string   `json:"flusherr"`
+	OldLate   int      `json:"old_late_writes"` // writes the old writer completed after the new connection was in use
+	OldLateOK int      `json:"old_late_writes_noerr"`
+	LinesFile string   `json:"lines_file"`
+	WireFiles []string `json:"wire_files"`
+	OldWire   int      `json:"old_wire_bytes"`
+	Ms        int64    `json:"ms"`
+}
+
+type hookEv struct {
+	name string
+	conn *destination.Conn
+	buf  string
+	err  bool
+}
+
+type hookLog struct {
+	sync.Mutex
+	cond   *sync.Cond
+	key    string
+	seen   []hookEv
+	hold   string        // hook point to hold at
+	holdOn string        // line to hold on
+	gate   chan struct{} // closed to release
+	first  *destination.Conn
+}
+
+func (h *hookLog) hook(name string, args ...interface{}) {
+	ev := hookEv{name: name}
+	if len(args) > 1 {
+		if c, ok := args[1].(*destination.Conn); ok {
+			ev.conn = c
+		}
+	}
+	if len(args) > 2 {
+		if b, ok := args[2].([]byte); ok {
+			ev.buf = string(b)
+		}
+	}
+	if len(args) > 3 {
+		if e, ok := args[3].(error); ok && e != nil {
+			ev.err = true
+		}
+	}
+	h.Lock()
+	h.seen = append(h.seen, ev)
+	hold := h.hold != "" && name == h.hold && ev.buf == h.holdOn
+	gate := h.gate
+	h.Unlock()
+	h.cond.Broadcast()
+	if hold {
+		<-gate
+	}
+}
+
+// wait blocks until an event matching f was seen; false when the deadline passed
+func (h *hookLog) wait(d time.Duration, f func(ev hookEv) bool) (hookEv, bool) {
+	deadline := time.Now().Add(d)
+	timer := time.AfterFunc(d+10*time.Millisecond, func() { h.cond.Broadcast() })
+	defer timer.Stop()
+	h.Lock()
+	defer h.Unlock()
+	from := 0
+	for {
+		for ; from < len(h.seen); from++ {
+			if f(h.seen[from]) {
+				return h.seen[from], true
+			}
+		}
+		if time.Now().After(deadline) {
+			return hookEv{}, false
+		}
+		h.cond.Wait()
+	}
+}
+
+func (h *hookLog) count(f func(ev hookEv) bool) int {
+	h.Lock()
+	defer h.Unlock()
+	k := 0
+	for _, ev := range h.seen {
+		if f(ev) {
+			k++
+		}
+	}
+	return k
+}
+
+func countUnits(d []byte, pickle bool) int64 {
+	var k int64
+	if pickle {
+		off := 0
+		for len(d)-off >= 4 {
+			l := int(binary.BigEndian.Uint32(d[off : off+4]))
+			if l < 0 || len(d)-off-4 < l {
+				break
+			}
+			off += 4 + l
+			k++
+		}
+		return k
+	}
+	for _, ch := range d {
+		if ch == '\n' {
+			k++
+		}
+	}
+	return k
+}
+
+func TestC05Regen(t *testing.T) {
+	out := hx.Out(t)
+	raws, err := hx.ReadLines(os.Getenv("VERIF_C05_REGEN"))
+	if err != nil {
+		t.Fatal(err)
+	}
+	logrus.SetOutput(ioutil.Discard)
+	logrus.SetLevel(logrus.ErrorLevel)
+	log := hx.NewLog(filepath.Join(out, "c05_regen.ndjson"))
+	log.Unbuffered = true
+	defer log.Close()
+	deadline := time.Duration(hx.EnvInt("VERIF_C05_DEADLINE_S", 60)) * time.Second
+	var cur *hookLog
+	var curMu sync.Mutex
+	destination.VerifSetHook(func(name string, args ...interface{}) {
+		curMu.Lock()
+		h := cur
+		curMu.Unlock()
+		if h == nil || len(args) == 0 {
+			return
+		}
+		if k, ok := args[0].(string); !ok || k != h.key {
+			return
+		}
+		h.hook(name, args...)
+	})
+	defer destination.VerifSetHook(nil)
+	for _, raw := range raws {
+		var c regenCfg
+		if err := json.Unmarshal(raw, &c); err != nil {
+			t.Fatal(err)
+		}
+		h := &hookLog{gate: make(chan struct{})}
+		h.cond = sync.NewCond(&h.Mutex)
+		log.Emit(regenRun(out, c, deadline, h, func(x *hookLog) {
+			curMu.Lock()
+			cur = x
+			curMu.Unlock()
+		}))
+	}
+}
+
+func regenRun(out string, c regenCfg, deadline time.Duration, h *hookLog, install func(*hookLog)) (rec regenRec) {
+	t0 := time.Now()
+	rec = regenRec{Ev: "regen", Cfg: c, Gens: 2, WireFiles: []string{}}
+	fail := func(why string) regenRec {
+		rec.Ev, rec.Why = "machinery", why
+		return rec
+	}
+	defer func() { rec.Ms = time.Since(t0).Milliseconds() }()
+	ep, err := newEndpoint(c.Pickle)
+	if err != nil {
+		return fail("listen: " + err.Error())
+	}
+	defer ep.ln.Close()
+	addr := ep.ln.Addr().String()
+	routeKey := fmt.Sprintf("c05g%dr%dp%d", hx.Seed(), c.R, os.Getpid())
+	m, _ := matcher.New("", "", "", "", "", "")
+	dest, err := destination.New(routeKey, m, addr, "", false, c.Pickle,
+		time.Duration(c.FlushMs)*time.Millisecond, 200*time.Millisecond, c.ConnBuf, c.IOBuf,
+		10, 1000, 1000, time.Second, time.Millisecond, time.Millisecond)
+	if err != nil {
+		return fail("destination.New: " + err.Error())
+	}
+	key := dest.Key
+	rec.Key = key
+	h.key = key
+	install(h)
+	defer install(nil)
+	released := false
+	release := func() {
+		if !released {
+			released = true
+			close(h.gate)
+		}
+	}
+	defer release()
+	dest.Run()
+	shut := false
+	shutdown := func() bool {
+		if shut {
+			return true
+		}
+		shut = true
+		done := make(chan struct{})
+		go func() {
+			dest.Shutdown()
+			close(done)
+		}()
+		select {
+		case <-done:
+			return true
+		case <-time.After(deadline):
+			return false
+		}
+	}
+	defer func() {
+		release()
+		shutdown()
+	}()
+	hand := func(line []byte) bool {
+		select {
+		case dest.In <- line:
+			return true
+		case <-time.After(deadline):
+			return false
+		}
+	}
+	waitConns := func(n int) bool {
+		t := time.Now()
+		for time.Since(t) < deadline {
+			ep.mu.Lock()
+			k := len(ep.conns)
+			ep.mu.Unlock()
+			if k >= n {
+				return true
+			}
+			time.Sleep(time.Millisecond)
+		}
+		return false
+	}
+
+	// 1. first connection up
+	first, ok := h.wait(deadline, func(ev hookEv) bool { return ev.name == "relay.connUpdate" && ev.conn != nil })
+	if !ok || !waitConns(1) {
+		return fail("first connection did not come up")
+	}
+	rec.Online = true
+	oldSeq := 800000
+	// lines the old writer writes (into its io buffer) before the one it is held with
+	for i := 0; i < c.OldPre; i++ {
+		l := mkLine(oldSeq+i, c.OldLen)
+		if !hand(l) {
+			return fail("hand-off (old, pre) blocked")
+		}
+		if _, ok := h.wait(deadline, func(ev hookEv) bool {
+			return ev.name == "hd.written" && ev.conn == first.conn && ev.buf == string(l)
+		}); !ok {
+			return fail("old writer did not write a pre line")
+		}
+	}
+	held := mkLine(oldSeq+c.OldPre, c.OldLen)
+	h.Lock()
+	h.hold, h.holdOn = c.Hold, string(held)
+	h.Unlock()
+	if !hand(held) {
+		return fail("hand-off (old, held) blocked")
+	}
+	if _, ok := h.wait(deadline, func(ev hookEv) bool { return ev.name == c.Hold && ev.conn == first.conn && ev.buf == string(held) }); !ok {
+		return fail("old writer did not reach the gate " + c.Hold)
+	}
+	for i := 0; i < c.OldQ; i++ {
+		l := mkLine(oldSeq+c.OldPre+1+i, c.OldLen)
+		if !hand(l) {
+			return fail("hand-off (old, queued) blocked")
+		}
+		if _, ok := h.wait(deadline, func(ev hookEv) bool {
+			return (ev.name == "send.ok" || ev.name == "send.drop") && ev.buf == string(l)
+		}); !ok {
+			return fail("old queued line not seen by the relay")
+		}
+	}
+
+	// 2. the endpoint closes the first connection; the relay gives up on it and reconnects
+	ep.mu.Lock()
+	ep.conns[0].Close()
+	ep.mu.Unlock()
+	if _, ok := h.wait(deadline, func(ev hookEv) bool { return ev.name == "relay.dead" && ev.conn == first.conn }); !ok {
+		return fail("relay did not notice the closed connection")
+	}
+	second, ok := h.wait(deadline, func(ev hookEv) bool {
+		return ev.name == "relay.connUpdate" && ev.conn != nil && ev.conn != first.conn
+	})
+	if !ok || !waitConns(2) {
+		return fail("relay did not reconnect")
+	}
+	slow0 := counter(key, "unit=Metric.action=drop.reason=slow_conn")
+	out0 := counter(key, "unit=Metric.direction=out")
+
+	// 3. lines over the new, healthy connection (they are numbered 1.. in hand-off order)
+	linesFile := filepath.Join(out, fmt.Sprintf("c05_regen_lines_r%d.txt", c.R))
+	lf, _ := os.Create(linesFile)
+	defer lf.Close()
+	rec.LinesFile = linesFile
+	lateFrom := 0
+	handNew := func(i int) string {
+		line := mkLine(i+1, c.NewLens[i])
+		lf.Write(line)
+		lf.Write([]byte{'\n'})
+		if !hand(line) {
+			return "hand-off (new) blocked"
+		}
+		rec.Handed++
+		if _, ok := h.wait(deadline, func(ev hookEv) bool {
+			return (ev.name == "hd.written" && ev.conn == second.conn && ev.buf == string(line)) ||
+				(ev.name == "send.drop" && ev.buf == string(line))
+		}); !ok {
+			return "new connection's writer did not write a line"
+		}
+		return ""
+	}
+	relAt := c.RelAt
+	if relAt <= 0 || relAt > len(c.NewLens) {
+		relAt = len(c.NewLens)
+	}
+	for i := 0; i < len(c.NewLens); i++ {
+		if why := handNew(i); why != "" {
+			return fail(why)
+		}
+		if c.MidFl > 0 && i+1 == c.MidFl {
+			if err := dest.Flush(); err != nil {
+				rec.FlushErr = err.Error()
+			}
+		}
+		if i+1 == relAt {
+			// 4. the old connection's writer finishes what it was doing and exits
+			h.Lock()
+			lateFrom = len(h.seen)
+			h.Unlock()
+			release()
+			if _, ok := h.wait(deadline, func(ev hookEv) bool { return ev.name == "hd.exit" && ev.conn == first.conn }); !ok {
+				return fail("old connection's writer did not exit")
+			}
+		}
+	}
+	h.Lock()
+	for _, ev := range h.seen[lateFrom:] {
+		if ev.name == "hd.written" && ev.conn == first.conn {
+			rec.OldLate++
+			if !ev.err {
+				rec.OldLateOK++
+			}
+		}
+	}
+	h.Unlock()
+
+	// 5. flush, shut down, read the second connection to EOF
+	if err := dest.Flush(); err != nil {
+		rec.FlushErr = err.Error()
+	}
+	if !shutdown() {
+		return fail("destination shutdown did not return")
+	}
+	t2 := time.Now()
+	eof := false
+	for time.Since(t2) < deadline && !eof {
+		ep.mu.Lock()
+		eof = len(ep.eof) >= 2 && ep.eof[1]
+		ep.mu.Unlock()
+		if !eof {
+			time.Sleep(time.Millisecond)
+		}
+	}
+	if !eof {
+		return fail("no EOF on the second connection after shutdown")
+	}
+	rec.Slow = counter(key, "unit=Metric.action=drop.reason=slow_conn") - slow0
+	rec.Out = counter(key, "unit=Metric.direction=out") - out0
+	rec.ConnUpd = h.count(func(ev hookEv) bool { return ev.name == "relay.connUpdate" })
+	ep.mu.Lock()
+	rec.Conns = len(ep.conns)
+	rec.OldWire = len(ep.data[0])
+	rec.Units = countUnits(ep.data[1], c.Pickle)
+	f := filepath.Join(out, fmt.Sprintf("c05_regen_wire_r%d.bin", c.R))
+	ioutil.WriteFile(f, ep.data[1], 0644)
+	rec.WireFiles = append(rec.WireFiles, f)
+	for _, cn := range ep.conns {
+		cn.Close()
+	}
+	ep.mu.Unlock()
+	rec.Stalled = rec.Units+rec.Slow < int64(rec.Handed)
+	return rec
+}
